@@ -535,6 +535,25 @@ pub fn run(sink: &mut Sink, rng: &mut Rng, thorough: bool, dir: &Path) {
     let _ = fs::remove_file(&outp);
     expect_error(sink, &format!("{}: convert ascii '{}'", what, doc), &moc(&["convert", "-f", "ascii", "-t", ty, p.to_str().unwrap(), "fits", op_], None), Some(&outp));
   }
+  // an empty list of regions gives the empty MOC of the requested depth, whatever the variant
+  {
+    let p = dir.join("empty.csv");
+    fs::write(&p, "").unwrap();
+    let out_a = dir.join("empty_out.ascii");
+    for args in [vec!["from", "cones", "10"], vec!["from", "cones", "-m", "10"], vec!["from", "multi", "10"], vec!["from", "pos", "10"]] {
+      let mut a: Vec<&str> = args.clone();
+      a.push(p.to_str().unwrap());
+      a.push("ascii");
+      a.push(out_a.to_str().unwrap());
+      let _ = fs::remove_file(&out_a);
+      let o = moc(&a, None);
+      sink.count("from-empty-list");
+      let got = if o.code == 0 { decode(&out_a, "ascii", "hpx") } else { format!("exit {} {}", o.code, o.err.lines().next().unwrap_or("")) };
+      if got != "10|_" {
+        sink.impl_failures.push(format!("cli-from-empty-list: moc {} <empty file> ascii -> {} instead of the empty MOC of depth 10", args.join(" "), got));
+      }
+    }
+  }
   // --moc-id: up to 68 characters fit a FITS card ('...' in columns 11-80); a longer one cannot be written and
   // must be refused with a message (never a crash), a shorter one must not change the MOC written
   {
@@ -558,6 +577,7 @@ pub fn run(sink: &mut Sink, rng: &mut Rng, thorough: bool, dir: &Path) {
     }
   }
   expect_error(sink, "from-garbage: from timestamp usec 'abc'", &moc(&["from", "timestamp", "--time-type", "usec", "10", "-", "ascii"], Some("abc\n")), None);
+  expect_error(sink, "from-garbage: from timerange usec '300 200' (tmin > tmax)", &moc(&["from", "timerange", "--time-type", "usec", "10", "-", "ascii"], Some("300 200\n")), None);
   expect_error(sink, "from-depth: from timestamp depth 62", &moc(&["from", "timestamp", "--time-type", "usec", "62", "-", "ascii"], Some("5\n")), None);
   expect_error(sink, "from-depth: from pos depth 30", &moc(&["from", "pos", "30", "-", "ascii"], Some("1.0 2.0\n")), None);
 }
